@@ -36,6 +36,7 @@ def main(argv=None) -> int:
             for o in rp.get("failed_obligations", []):
                 print("  recorded: %s" % json.dumps(o))
         ctx.guard(mod.run, ctx)
+        ctx.discharge_lemmas()
         failed = [o for o in ctx.report.obs if not o.ok]
         if ctx.analysis_errors and not failed:
             raise AnalysisError("; ".join(ctx.analysis_errors[:3]))
